@@ -123,6 +123,12 @@ D = {
     "C15e": ("CooMatrix.__setitem__, dense branch: self.data.frombytes(value.tobytes()) (same idea as seeded/C15b, found independently)", "a dense block, list or scalar whose dtype is not float64"),
     "C16f": ("System.g_N_ddot / gamma_F_dot allocate with dtype=u_dot.dtype", "all bodies with integer-typed initial velocities and a persistent contact with a non-integer acceleration offset: consistent initial conditions from truncated zeta_N, zeta_F"),
     "C22e": ("fixed_point_iteration hands np.asarray(x, dtype=float) (no copy for float x) to the map", "a map that updates its argument in place: error 0 after one iteration, nothing raises"),
+    "C02e": ("Exp_SO3 returns the module-level constant eye3 itself for psi = 0", "a caller that updates the returned matrix in place (A[:] = A @ Exp_SO3(dpsi)): the package's identity matrix is overwritten and every rotation routine returns garbage afterwards"),
+    "C11f": ("Mesh1D.eval_basis cache key without the element number (same slip as seeded/C13b, found independently)", "xi on an interior element boundary asked with the explicit left element first (eval_strains, surface, export)"),
+    "C14f": ("ScalarForceLawBase.assembler_callback assembles its interaction only if it has no qDOF yet (hasattr guard)", "a force law on an interaction that is not added before it, a first assembly, then the removal of a contribution that shifts the layout, then assemble(): the force law scatters at the old indices"),
+    "C21f": ("fixed_point_iteration without the defensive copies (same slip as seeded/C22b, found independently)", "DualStormerVerlet(accelerated=False) with velocity-dependent forces"),
+    "C24f": ("System.set_new_initial_state writes into the contributions' existing arrays (same change as seeded/C09c, found independently)", "bodies built from one shared u0 array, or integer-typed initial arrays"),
+    "C28f": ("system_from_urdf accumulates the transport term in place into J_v_JRc, the array joint_kinematics returned", "a floating joint below the root whose velocity is requested as a numpy array: integer-typed raises, float-typed is modified for the caller and wrong on a second import"),
     "C22b": ("fixed_point_iteration calls fun(x) without the defensive copy", "a fixed-point map that updates its argument in place (DualStormerVerlet's own map with accelerated=False does)"),
 }
 rows = []
